@@ -163,6 +163,7 @@ type params struct {
 	Topology   bool   `json:"topology_changes"`
 	Gaps       []int  `json:"initially_absent_regions,omitempty"`
 	ConfigPlay bool   `json:"config_switches"`
+	Keys       string `json:"region_keys,omitempty"`
 }
 
 type world struct {
@@ -183,17 +184,18 @@ type world struct {
 	regs   []*regionRec // ordered by start key
 	nextID uint64
 
-	last     pair
-	served   map[uint64]string // state id -> state, for every pair ever served in this history
-	idState  map[uint64]string // state id -> state, for every id seen anywhere (saved, offered, served)
-	kvSeen   int               // kv log events already folded into idState
-	offSeen  int
-	streak   int // consecutive eligible ticks without reaching sync
-	ep       *epoch
-	events   []interface{}
-	shape    []string
-	dead     bool // harness problem: stop this history
-	topoDone bool // a split/merge happened in the current state-id epoch
+	last       pair
+	served     map[uint64]string // state id -> state, for every pair ever served in this history
+	idState    map[uint64]string // state id -> state, for every id seen anywhere (saved, offered, served)
+	kvSeen     int               // kv log events already folded into idState
+	offSeen    int
+	streak     int // consecutive eligible ticks without reaching sync
+	ep         *epoch
+	events     []interface{}
+	shape      []string
+	dead       bool // harness problem: stop this history
+	topoDone   bool // a split/merge happened in the current state-id epoch
+	forceEpoch int  // kind of the next report stream (-1 = free choice)
 }
 
 func drConfig(tp, td int, asyncWait time.Duration, labelKey string) config.ReplicationModeConfig {
@@ -986,7 +988,7 @@ func (w *world) judgeTransition(ci callInfo, pre, post pair, c cond, permOK bool
 // ---- construction ----
 
 func newWorld(r *ev.Run, p params, rng *rand.Rand, opts *config.PersistOptions) *world {
-	w := &world{r: r, rng: rng, p: p, served: map[uint64]string{}, idState: map[uint64]string{}}
+	w := &world{r: r, rng: rng, p: p, served: map[uint64]string{}, idState: map[uint64]string{}, forceEpoch: -1}
 	w.ctx, w.cancel = context.WithCancel(context.Background())
 	w.cl = &clus{Cluster: mockcluster.NewCluster(w.ctx, opts)}
 	w.kv = kvx.New(kv.NewMemoryKV())
